@@ -1,7 +1,7 @@
 (* C16 -- property theorems only.  Proofs live in C16/Proofs*.v. *)
 From Coq Require Import NArith List.
 From DV Require Import Base.Outcome Base.Bytes C16.Gen C16.Model C16.ProofsNeg C16.ProofsTrunc
-  C16.ProofsFrame C16.ProofsTop.
+  C16.ProofsFrame C16.ProofsSrv C16.ProofsTop.
 Import ListNotations.
 Local Open Scope N_scope.
 
@@ -49,32 +49,44 @@ Print Assumptions C16_push_script_bound.
 (* ---- truncation and the UDP size bound ---- *)
 Theorem C16_udp_size_cases : forall rq hint m, mlen m <= 65535 ->
   (mlen m <= tmax rq hint /\ mlen (post rq hint m) = mlen m /\
-   tc_set (m_b2 (post rq hint m)) = tc_set (m_b2 m) /\
+   tc_set (m_b2 (post rq hint m)) = tc_set (m_b2 m) /\ m_qs (post rq hint m) = m_qs m /\
    m_an (post rq hint m) = m_an m /\ m_ns (post rq hint m) = m_ns m /\ m_ar (post rq hint m) = m_ar m) \/
-  (tmax rq hint < mlen m /\ mlen (post rq hint m) = mlen (trunc_form (tmax rq hint) m) /\
+  (tmax rq hint < mlen m /\ mlen (post rq hint m) = mlen (tform (tmax rq hint) m) /\
    tc_set (m_b2 (post rq hint m)) = true /\
+   m_qs (post rq hint m) = kept_q (tmax rq hint) (m_qs m) /\
    m_an (post rq hint m) = [] /\ m_ns (post rq hint m) = [] /\
-   m_ar (post rq hint m) = trunc_ar (tmax rq hint) m).
+   m_ar (post rq hint m) = trunc_ar (tmax rq hint) (kept_q (tmax rq hint) (m_qs m)) (m_ar m)).
 Proof. exact top_udp_size_cases. Qed.
 Print Assumptions C16_udp_size_cases.
 
 (* the truncated form, three ways: no OPT / the response's OPT when it fits /
    the OPT without its options when only that fits *)
 Theorem C16_truncated_form_three_way : forall max m,
-  (trunc_ar max m = [] /\ mlen (trunc_form max m) = hq_len m) \/
-  (exists o, first_opt (m_ar m) = Some o /\ trunc_ar max m = [RROpt o] /\
-             mlen (trunc_form max m) = hq_len m + opt_len o /\ hq_len m + opt_len o <= max) \/
-  (exists o, first_opt (m_ar m) = Some o /\ trunc_ar max m = [RROpt (min_opt o)] /\
-             mlen (trunc_form max m) = hq_len m + 11 /\
-             max < hq_len m + opt_len o /\ hq_len m + 11 <= max).
+  let qs := kept_q max (m_qs m) in
+  (trunc_ar max qs (m_ar m) = [] /\ mlen (tform max m) = 12 + qs_len qs) \/
+  (exists o, first_opt (m_ar m) = Some o /\ trunc_ar max qs (m_ar m) = [RROpt o] /\
+             mlen (tform max m) = 12 + qs_len qs + opt_len o /\ 12 + qs_len qs + opt_len o <= max) \/
+  (exists o, first_opt (m_ar m) = Some o /\ trunc_ar max qs (m_ar m) = [RROpt (min_opt o)] /\
+             mlen (tform max m) = 12 + qs_len qs + 11 /\
+             max < 12 + qs_len qs + opt_len o /\ 12 + qs_len qs + 11 <= max).
 Proof. exact top_trunc_three_way. Qed.
 Print Assumptions C16_truncated_form_three_way.
 
-(* the response fits the limit unless header + questions alone exceed it; then it
-   is exactly header + questions with TC set *)
+Theorem C16_kept_questions : forall max qs,
+  (exists rest, qs = kept_q max qs ++ rest) /\
+  (12 + qs_len qs <= max -> kept_q max qs = qs) /\
+  (trunc_questions_limited = false -> kept_q max qs = qs) /\
+  (trunc_questions_limited = true -> 12 <= max -> 12 + qs_len (kept_q max qs) <= max).
+Proof. exact top_kept_questions. Qed.
+Print Assumptions C16_kept_questions.
+
+(* the response fits the limit when header + questions do - and always once the
+   question loop of truncate is limit-aware; before that, header + questions over
+   the limit leave as exactly that, TC set *)
 Theorem C16_udp_size_bound : forall rq hint m, mlen m <= 65535 ->
-  (hq_len m <= tmax rq hint -> mlen (post rq hint m) <= tmax rq hint) /\
-  (tmax rq hint < hq_len m ->
+  ((trunc_questions_limited = true /\ 12 <= tmax rq hint) \/ hq_len m <= tmax rq hint ->
+     mlen (post rq hint m) <= tmax rq hint) /\
+  (trunc_questions_limited = false -> tmax rq hint < hq_len m ->
      mlen (post rq hint m) = hq_len m /\ tc_set (m_b2 (post rq hint m)) = true /\
      m_an (post rq hint m) = [] /\ m_ns (post rq hint m) = [] /\ m_ar (post rq hint m) = []).
 Proof. exact top_udp_size_bound. Qed.
@@ -88,12 +100,36 @@ Theorem C16_udp_size_bound_one_question : forall rq cfg m r q,
 Proof. exact top_udp_size_bound_one_question. Qed.
 Print Assumptions C16_udp_size_bound_one_question.
 
-(* what remains: 100 echoed questions are 712 octets against a limit of 512 *)
-Theorem C16_udp_size_bound_proviso_needed :
-  exists rq cfg m r, mlen m <= 65535 /\ udp_response rq cfg m = Ok r /\
-    udp_limit (rq_client rq) cfg = Ok 512 /\ tc_set (m_b2 r) = true /\ mlen r = 712.
-Proof. exact udp_size_bound_proviso_needed. Qed.
-Print Assumptions C16_udp_size_bound_proviso_needed.
+(* ---- the datagram server as a whole: every path that answers a datagram ---- *)
+Theorem C16_udp_server_bound_once_fixed :
+  trunc_questions_limited = true -> err_resp_first_question_only = true ->
+  forall x cfg svc r, hint_ok cfg -> Forall wf_q (firstn 1 (x_qs x)) ->
+  (forall m, svc = SvcOk m -> mlen m <= 65535) ->
+  udp_server x cfg svc = Ok (Some r) -> mlen r <= text_limit (x_client x) cfg.
+Proof. exact top_udp_server_bound_once_fixed. Qed.
+Print Assumptions C16_udp_server_bound_once_fixed.
+
+(* a STATUS request with 100 questions whose answer echoes them: 712 octets, TC set *)
+Theorem C16_udp_many_questions_refuted : trunc_questions_limited = false ->
+  exists r, udp_server many_q_x None many_q_svc = Ok (Some r) /\
+            tc_set (m_b2 r) = true /\ mlen r = 712 /\ text_limit (x_client many_q_x) None = 512.
+Proof. exact top_many_questions_refuted. Qed.
+Print Assumptions C16_udp_many_questions_refuted.
+
+(* a reply (QR = 1) with 100 questions: a FORMERR of 723 octets, not truncated *)
+Theorem C16_udp_error_echo_refuted : err_resp_first_question_only = false ->
+  exists r, udp_server many_q_reply (Some 1232) SvcNone = Ok (Some r) /\
+            tc_set (m_b2 r) = false /\ mlen r = 723 /\ text_limit (x_client many_q_reply) (Some 1232) = 512.
+Proof. exact top_error_echo_refuted. Qed.
+Print Assumptions C16_udp_error_echo_refuted.
+
+Theorem C16_udp_server_total : forall x cfg svc, exists r, udp_server x cfg svc = Ok r.
+Proof. exact top_udp_server_total. Qed.
+Print Assumptions C16_udp_server_total.
+
+Theorem C16_udp_server_id : forall x cfg svc r, udp_server x cfg svc = Ok (Some r) -> m_id r = x_id x.
+Proof. exact top_udp_server_id. Qed.
+Print Assumptions C16_udp_server_id.
 
 Theorem C16_tc_iff : forall rq hint m, mlen m <= 65535 ->
   tc_set (m_b2 (post rq hint m)) = true <-> (tmax rq hint < mlen m \/ tc_set (m_b2 m) = true).
@@ -101,7 +137,8 @@ Proof. exact top_tc_iff. Qed.
 Print Assumptions C16_tc_iff.
 
 Theorem C16_dropped_implies_tc : forall rq hint m, mlen m <= 65535 ->
-  (m_an (post rq hint m) <> m_an m \/ m_ns (post rq hint m) <> m_ns m \/ m_ar (post rq hint m) <> m_ar m) ->
+  (m_qs (post rq hint m) <> m_qs m \/ m_an (post rq hint m) <> m_an m \/
+   m_ns (post rq hint m) <> m_ns m \/ m_ar (post rq hint m) <> m_ar m) ->
   tc_set (m_b2 (post rq hint m)) = true.
 Proof. exact top_dropped_implies_tc. Qed.
 Print Assumptions C16_dropped_implies_tc.
@@ -109,19 +146,40 @@ Print Assumptions C16_dropped_implies_tc.
 Theorem C16_truncated_wellformed : forall rq hint m,
   mlen m <= 65535 -> rq_id rq < 65536 -> wf_resp m -> tmax rq hint < mlen m ->
   tc_set (m_b2 (post rq hint m)) = true /\ m_an (post rq hint m) = [] /\ m_ns (post rq hint m) = [] /\
-  m_ar (post rq hint m) = trunc_ar (tmax rq hint) m /\ m_qs (post rq hint m) = m_qs m /\
+  m_qs (post rq hint m) = kept_q (tmax rq hint) (m_qs m) /\
+  m_ar (post rq hint m) = trunc_ar (tmax rq hint) (m_qs (post rq hint m)) (m_ar m) /\
   parse_min (wire_msg (post rq hint m)) = Some (post rq hint m).
 Proof. exact top_truncated_wellformed. Qed.
 Print Assumptions C16_truncated_wellformed.
 
 Theorem C16_id_question_echoed : forall rq cfg m r, mlen m <= 65535 ->
-  udp_response rq cfg m = Ok r -> m_id r = rq_id rq /\ m_qs r = m_qs m.
+  udp_response rq cfg m = Ok r ->
+  m_id r = rq_id rq /\ (exists rest, m_qs m = m_qs r ++ rest) /\
+  (trunc_questions_limited = false -> m_qs r = m_qs m) /\
+  (forall q, hint_ok cfg -> m_qs m = [q] -> wf_q q -> m_qs r = [q]).
 Proof. exact top_id_question_echoed. Qed.
 Print Assumptions C16_id_question_echoed.
 
 Theorem C16_udp_response_total : forall rq cfg m, exists r, udp_response rq cfg m = Ok r.
 Proof. exact top_udp_response_total. Qed.
 Print Assumptions C16_udp_response_total.
+
+(* ---- the stream server (EDNS non-UDP arm, edns-tcp-keepalive) ---- *)
+Theorem C16_tcp_server_framed : forall x idle svc r,
+  12 + qs_len (x_qs x) + 11 <= 65535 -> (forall m, svc = SvcOk m -> mlen m <= 65535) ->
+  tcp_server x idle svc = Ok (Some r) ->
+  mlen r <= 65535 /\ exists f, frame_out (wire_msg r) = Ok f.
+Proof. exact top_tcp_server_framed. Qed.
+Print Assumptions C16_tcp_server_framed.
+
+Theorem C16_tcp_server_id : forall x idle svc r, tcp_server x idle svc = Ok (Some r) -> m_id r = x_id x.
+Proof. exact top_tcp_server_id. Qed.
+Print Assumptions C16_tcp_server_id.
+
+Theorem C16_keepalive_option : forall ms ka, keepalive_option ms = Some ka ->
+  exists v, v = ms / 100 /\ v < 65536 /\ ka = [0; 11; 0; 2; v / 256; v mod 256].
+Proof. exact keepalive_option_spec. Qed.
+Print Assumptions C16_keepalive_option.
 
 (* ---- stream framing ---- *)
 Theorem C16_framing_exact : forall m f, frame_out m = Ok f ->
